@@ -35,6 +35,24 @@ impl EncoderWork {
 }
 
 // ======================================================================
+// EncoderWork - VERIFICATION HOOKS
+
+#[cfg(feature = "verif-hooks")]
+impl EncoderWork {
+    /// Digest of the complete concrete state (configuration, counter and working memory).
+    #[doc(hidden)]
+    pub fn verif_digest(&self) -> u64 {
+        let mut digest = crate::verif_hooks::Digest::new();
+        digest.usize(self.original_count);
+        digest.usize(self.recovery_count);
+        digest.usize(self.shard_bytes);
+        digest.usize(self.original_received_count);
+        self.shards.verif_digest(&mut digest);
+        digest.finish()
+    }
+}
+
+// ======================================================================
 // EncoderWork - IMPL Default
 
 impl Default for EncoderWork {
